@@ -135,6 +135,20 @@ def structural(tier):
              "continue-then-statement": "start :: fn do\n    i := 0\n    loop i < 2 do\n        i += 1\n        continue\n        print(1)\n    end\n    print(2)\nend\n",
              "unreachable-then-statement": "f :: fn a: int -> int do\n    if a > 5 do\n        <!>\n        print(a)\n    end\n    ret a\nend\nstart :: fn do\n    print(f(1))\nend\n"}
     for n, text in AFTER.items(): out.append(("statements-after-" + n, text))
+    # the product: every control transfer as the last (or not last) statement of every kind of block, with statements after the block
+    TRANSFERS = {"ret-value": ("ret a", True), "bare-ret": ("ret", False), "break": ("break", None), "continue": ("continue", None), "unreachable": ("<!>", None)}
+    BLOCKS = {"plain-do": "do\n    T\nend", "if": "if a > 0 do\n    T\nend", "else": "if a > 5 do\n    print(a)\nelse\n    T\nend", "elif": "if a > 5 do\n    print(a)\nelif a > 0 do\n    T\nend",
+              "loop": "loop a > 0 do\n    T\nend", "case-arm": "case e do\n    A v ->\n        T\n    end\n    else end\nend", "case-else-without-arms": "case e do\n    else\n        T\n    end\nend",
+              "case-else": "case e do\n    A v -> print(v) end\n    else\n        T\n    end\nend", "nested-do": "do\n    do\n        T\n    end\n    print(1)\nend", "do-in-if": "if a > 0 do\n    do\n        T\n    end\n    print(2)\nend"}
+    def indent(t, n): return "\n".join(" " * n + l for l in t.split("\n"))
+    for tn, (tr, valued) in TRANSFERS.items():
+        for bn, blk in BLOCKS.items():
+            for inside in (False, True):
+                body = blk.replace("T", tr + ("\n" + " " * (len(blk.split("T")[0].split("\n")[-1])) + "print(7)" if inside else ""))
+                sig = "fn a: int, e: En -> int" if valued is not False else "fn a: int, e: En"
+                text = "En :: enum\n    A int,\n    B,\nend\nf :: %s do\n    i := 0\n    loop i < 3 do\n        i += 1\n%s\n        print(i)\n    end\n%s\nend\nstart :: fn do\n    %s\nend\n" % (
+                    sig, indent(body, 8), "    ret 2" if valued is not False else "    print(0)", "print(f(1, En.A 1))" if valued is not False else "f(1, En.A 1)")
+                out.append(("control-transfer(%s)-ends-block(%s)%s" % (tn, bn, "-followed-inside" if inside else ""), text))
     return out
 
 
